@@ -87,6 +87,7 @@ func cmdCheck(args []string) int {
 	}
 	t0 := time.Now()
 	id := *prop
+	curProp = id
 	evPath := filepath.Join(verifDir, "evidence", id+".json")
 	undecided := func(reason string) int {
 		fmt.Printf("UNDECIDED property=%s reason=%s\n", id, reason)
@@ -185,8 +186,10 @@ func cmdCheck(args []string) int {
 		fmt.Println("queries kept in", work)
 	}
 	d := &discharger{dir: work, seed: seed, timeoutMs: 10000, retryMs: 30000, par: 8}
+	d.deadline = t0.Add(270 * time.Second)
 	if *tier == "thorough" {
 		d.timeoutMs, d.retryMs = 30000, 120000
+		d.deadline = t0.Add(3000 * time.Second)
 	}
 	var jobs []job
 	var skippedDeep int
@@ -198,6 +201,9 @@ func cmdCheck(args []string) int {
 			}
 			jobs = append(jobs, job{u: u, o: o})
 		}
+	}
+	if *verbose {
+		fmt.Printf("%d obligations generated from %d units in %.1fs\n", len(jobs), len(units), genSecs)
 	}
 	for _, j := range jobs {
 		j.u.prepare(j.o)
@@ -336,6 +342,9 @@ func cmdCheck(args []string) int {
 		for _, j := range jobs {
 			if j.o.res != "unsat" || *verbose {
 				fmt.Printf("  %-8s %-70s %s %.2fs\n", j.o.res, j.o.name, j.o.solver, j.o.secs)
+				if keepAll && j.o.res != "unsat" {
+					fmt.Printf("           query: %s\n", j.o.qfile)
+				}
 				if j.o.res == "sat" && *verbose {
 					mv := modelValues(j.o.model)
 					var ks []string
@@ -405,7 +414,7 @@ func (e *engine) newUnit(fn *ssa.Function, fc *funcContract) *unit {
 	if fc.mode != "" {
 		md = fc.mode
 	}
-	return &unit{eng: e, fn: fn, ct: fc, m: mode{intMode: md == "int"}, decls: map[string]string{}, notes: map[string]bool{}, closures: map[string]*closureVal{}, siteOrd: map[string]int{}, inlined: map[string]bool{}, ghostTypes: map[string]types.Type{}}
+	return &unit{eng: e, fn: fn, ct: fc, m: mode{intMode: md == "int"}, decls: map[string]string{}, notes: map[string]bool{}, closures: map[string]*closureVal{}, siteOrd: map[string]int{}, inlined: map[string]bool{}, ghostTypes: map[string]types.Type{}, cutHeaders: map[*ssa.BasicBlock]bool{}, cutDone: map[*ssa.BasicBlock]bool{}}
 }
 
 // checkBinding: header parameter types and loop clauses must match the code
